@@ -61,4 +61,76 @@ def execOld (s : St) : List Act → Option St
     | some s' => execOld s' rest
     | none => none
 
+/-!
+### Hand-over of records with a per-record permission check, against concurrent re-flagging
+
+The query executors (hashmap/map.go `queryExecutor` after its snapshot, bbolt / badger cursor loops, the fstree
+walk) visit the candidate records one by one; for each they check key, condition, validity and
+`Meta().CheckPermission(local, internal)` and only then send the record into `Next` (blocking while the buffer
+is full). Meanwhile a privileged interface may mark records secret / crown jewel (`protect x` = that call
+has returned for record `x`). One action per check, channel operation and re-flag.
+
+`due` is a ghost field: the records that were marked while they were still waiting for their check.
+-/
+namespace HandOver
+
+structure St where
+  todo : List Nat            -- candidates still to be visited (hashmap: the snapshot; distinct keys)
+  hand : Option Nat := none  -- passed its check, being sent
+  buf : List Nat := []       -- contents of Next, oldest first
+  cap : Nat                  -- capacity of Next
+  recvd : List Nat := []     -- what the consumer has received, most recent first
+  prot : List Nat := []      -- records marked so far
+  due : List Nat := []       -- ghost: marked before their hand-over check
+  deriving Repr, DecidableEq
+
+inductive Act where
+  | check | send | recv | protect (x : Nat)
+  deriving Repr, DecidableEq
+
+/-- The executors as written: the permission check is part of the visit that precedes the send. -/
+def step (s : St) : Act → Option St
+  | .check =>
+    match s.hand, s.todo with
+    | none, x :: rest => if x ∈ s.prot then some { s with todo := rest } else some { s with todo := rest, hand := some x }
+    | _, _ => none
+  | .send =>
+    match s.hand with
+    | some x => if s.buf.length < s.cap then some { s with hand := none, buf := s.buf ++ [x] } else none
+    | none => none
+  | .recv =>
+    match s.buf with
+    | x :: rest => some { s with buf := rest, recvd := x :: s.recvd }
+    | [] => none
+  | .protect x => some { s with prot := x :: s.prot, due := if x ∈ s.todo then x :: s.due else s.due }
+
+def init (todo : List Nat) (cap : Nat) : St := { todo := todo, cap := cap }
+
+def exec (s : St) : List Act → Option St
+  | [] => some s
+  | a :: rest => match step s a with
+    | some s' => exec s' rest
+    | none => none
+
+/-- Records the consumer has received plus those that have left the executor or are about to (in the buffer, in
+    the blocked send). -/
+def inFlight (s : St) : Nat := s.recvd.length + s.buf.length + (if s.hand.isSome then 1 else 0)
+
+/-- A variant that decides the permission when the candidates are collected (at `init`, i.e. before any
+    `protect`) and not again at the visit: what is in the snapshot is sent. Kept for the refutation witness. -/
+def stepSnapshotCheck (s : St) : Act → Option St
+  | .check =>
+    match s.hand, s.todo with
+    | none, x :: rest => some { s with todo := rest, hand := some x }
+    | _, _ => none
+  | a => step s a
+
+def execSnapshotCheck (s : St) : List Act → Option St
+  | [] => some s
+  | a :: rest => match stepSnapshotCheck s a with
+    | some s' => execSnapshotCheck s' rest
+    | none => none
+
+end HandOver
+
 end PB.Iter
